@@ -110,6 +110,8 @@ def src_desc(d, nodename=lambda i: "n%d" % i):
         return '(int/u64 "%d")' % d[1]
     if k == "proto":
         return "(table/setproto %s %s)" % (src_desc(d[1], nodename), src_desc(d[2], nodename))
+    if k == "sproto":
+        return "(struct/with-proto %s)" % " ".join(src_desc(x, nodename) for x in d[1:])
     if k == "warr":
         return "(array/concat (array/weak 4) [%s])" % " ".join(src_desc(x, nodename) for x in d[1:])
     if k in ("wtabk", "wtabv", "wtabkv"):
@@ -298,6 +300,9 @@ def leaf_descriptors(chk):
         ds += [(w,), (w, k, seven), (w, s_, ("arr", seven), k, s_), ("proto", (w, k, seven), ("tab", k, s_)),
                ("proto", (w, k, seven), (w, s_, seven))]
     ds.append(("proto", ("tab", k, seven), ("wtabk", s_, seven)))
+    # structs with prototypes: empty / filled, prototype empty / filled / itself with a prototype
+    for proto in (("struct",), ("struct", k, seven), ("sproto", ("struct", s_, seven), k, seven)):
+        ds += [("sproto", proto), ("sproto", proto, k, s_), ("sproto", proto, s_, ("arr", seven), k, seven)]
     return ds
 
 
@@ -632,12 +637,14 @@ def part_fibers(chk):
             viols.append(Viol(sigbase + ":" + st.lower(), "%s -> %s %s" % (it, st, text[:300]), replay_code(it, "expected log " + elo)))
             continue
         pre, st0, st1, lo, l1, l3, l2 = text.split("\t")
+        st0, _, lv0 = st0.partition(" ")
+        st1, _, lv1 = st1.partition(" ")
         if pre != epre or lo != elo or ":" + st0 != est:
             raise HarnessError("fiber model disagrees on the ORIGINAL: %s -> %s | %s | %s, model %s | %s | %s" % (it, pre, st0, lo, epre, est, elo))
         chk.outcome("fib:" + st0 + ":" + l1[:40])
         note = "fields: log-before, status, status-of-copy, original, copy, copy-from-pair, second copy driven with +50"
-        if ":" + st1 != est:
-            viols.append(Viol(sigbase + ":status", "%s: copy status %s, original %s" % (it, st1, st0), replay_code(it, note)))
+        if ":" + st1 != est or lv1 != lv0:
+            viols.append(Viol(sigbase + ":status", "%s: copy status / last value %s %s, original %s %s" % (it, st1, lv1, st0, lv0), replay_code(it, note)))
         if l1 != elo or l3 != elo:
             viols.append(Viol(sigbase + ":behaviour", "%s: copy log %s / %s, expected %s" % (it, l1, l3, elo), replay_code(it, note)))
         if l2 != el2:
@@ -859,6 +866,17 @@ def part_channels(chk):
                 continue
             for closed in (False, True):
                 cases.append((cap, ops, closed))
+    # ring positions: c give+take cycles move the head, then fill to n (every head x count, ring sizes 2, 4, 8)
+    have = set(cases)
+    for cap in (1, 2, 3, 5):
+        for cyc in range(0, 10):
+            for pre in range(0, cap + 1):
+                for n in range(0, cap + 1):
+                    ops = ("g",) * pre + ("t",) * pre + ("g", "t") * cyc + ("g",) * n
+                    for closed in (False, True):
+                        if (cap, ops, closed) not in have:
+                            have.add((cap, ops, closed))
+                            cases.append((cap, ops, closed))
     items = ["[:chan %d [%s] %s]" % (cap, " ".join(":" + o for o in ops), "true" if c else "false") for cap, ops, c in cases]
     res = run_code(items)
     for (cap, ops, closed), it, (st, text) in zip(cases, items, res):
@@ -908,6 +926,27 @@ def part_pegs(chk):
         if stab not in ("-", "true"):
             viols.append(Viol(sig + ":remarshal", "%s: marshalling the copy gives other bytes than marshalling the original" % src[:80], replay_code(it, "")))
     chk.part("pegs", grammars=len(G.PEGS), texts=len(texts))
+    return viols
+
+
+WEAK_EXPECT = {"normal": "value-kept key-kept plain", "k": "value-kept key-gone plain",
+               "v": "value-gone key-kept plain", "kv": "value-gone key-gone plain"}
+
+
+def part_weak(chk):
+    """weak tables stay weak (and normal ones normal): what a collection removes from the copy"""
+    viols = []
+    cases = [(k, p) for k in WEAK_EXPECT for p in (None,) + tuple(WEAK_EXPECT)]
+    items = ["[:weak :%s %s]" % (k, ":" + p if p else "nil") for k, p in cases]
+    res = run_code(items)
+    for (k, p), it, (st, text) in zip(cases, items, res):
+        chk.add(evaluations=1)
+        exp = WEAK_EXPECT[k] + (" / " + WEAK_EXPECT[p] if p else "")
+        chk.outcome("weak:" + text)
+        if st != "OK" or text != exp:
+            viols.append(Viol("weak-table:%s%s:collection" % (k, ":proto-" + p if p else ""),
+                              "%s: after gccollect the copy has [%s], expected [%s] (%s)" % (it, text, exp, st), replay_code(it, "expected " + exp)))
+    chk.part("weak-tables", cases=len(cases))
     return viols
 
 
@@ -972,7 +1011,7 @@ def main():
 
 PARTS += [("ints", part_ints), ("leaves", part_leaves), ("closures", part_closures), ("fibers", part_fibers),
           ("functions", part_functions), ("c02", part_c02), ("core", part_core), ("asmlive", part_asm_live), ("images", part_images),
-          ("channels", part_channels), ("pegs", part_pegs), ("rngs", part_rngs), ("graphs", part_graphs)]
+          ("channels", part_channels), ("pegs", part_pegs), ("rngs", part_rngs), ("weak", part_weak), ("graphs", part_graphs)]
 
 if __name__ == "__main__":
     harness_guard(main)
